@@ -36,6 +36,8 @@ func runC18(r *Run) {
 	checkErrFirst(r)
 	checkEnumIndex(r)
 	checkNilErr(r)
+	checkRangePairs(r)
+	checkSliceBounds(r, "/chains/ethereum")
 	checkExitListing(r)
 }
 
